@@ -14,7 +14,7 @@ from __future__ import annotations
 import ast
 from typing import Dict, List, Optional, Tuple
 
-from .pyast import TranslateError, load, find_class, find_func, unique_if, const_int, dotted, ExprTr
+from .pyast import TranslateError, load, find_class, find_func, unique_if, const_int, dotted, ExprTr, names_in
 
 # ctypes simple types -> (kind code, width).  kind: 0 signed int, 1 unsigned int, 2 float, 3 char
 # (aliases share the pair exactly like the ctypes classes are shared on x86-64 Linux)
@@ -246,16 +246,33 @@ def render() -> str:
 
 
 def render_codec() -> str:
-    """Gen/CodecGuards.v: the version check of Message.from_json (message.py) as a Gallina bool (True = raise)."""
+    """Gen/CodecGuards.v: the version check of Message.from_json (message.py) as a Gallina bool (True = raise).
+
+    Fail closed unless from_json is exactly the straight-line skeleton the model follows:
+    header decoded, class looked up, the version guard as the ONLY branch (no return / raise / branch before it),
+    the data decoded only after it."""
     tree = load("message.py")
     fn = find_func(tree, "from_json", "Message")
-    node = _raising_if(fn, ["version", "type_hash"], "InvalidMessageDefinition")
-    body = ExprTr({"hdr.version": "version", "msg_cls.type_hash": "type_hash"}).b(node.test)
-    # the branch must come after the header has been decoded and before the data is decoded
-    names = [n.id for n in ast.walk(fn) if isinstance(n, ast.Name)]
-    if "hdr_cls" not in names or "msg_cls" not in names:
-        raise TranslateError("Message.from_json: unexpected structure")
+    body = [st for st in fn.body if not (isinstance(st, ast.Expr) and isinstance(st.value, ast.Constant))]
+    expected = {0: "d = json.loads(s)", 1: "hdr_cls = get_header_cls()", 2: "hdr = hdr_cls.from_dict(d['header'])",
+                3: "msg_cls = get_msg_cls(hdr.msg_type)", 5: "msg_data = msg_cls.from_dict(d['data'])",
+                6: "obj = cls(hdr, msg_data)", 7: "return obj"}
+    if len(body) != 8:
+        raise TranslateError(f"Message.from_json: expected 8 statements, found {len(body)}")
+    for i, text in expected.items():
+        got = ast.unparse(body[i])
+        if got != text:
+            raise TranslateError(f"Message.from_json statement {i}: expected `{text}`, found `{got}`")
+    node = body[4]
+    if not isinstance(node, ast.If) or node.orelse or not (
+            len(node.body) == 1 and isinstance(node.body[0], ast.Raise) and isinstance(node.body[0].exc, ast.Call)
+            and isinstance(node.body[0].exc.func, ast.Name) and node.body[0].exc.func.id == "InvalidMessageDefinition"):
+        raise TranslateError("Message.from_json: statement 4 is not `if <guard>: raise InvalidMessageDefinition(...)`")
+    if not {"version", "type_hash"} <= names_in(node.test):
+        raise TranslateError("Message.from_json: the guard does not mention version and type_hash")
+    guard = ExprTr({"hdr.version": "version", "msg_cls.type_hash": "type_hash"}).b(node.test)
     return ("(* GENERATED by vlib/translate/validators_tbl.py from /repo/src/pyrtma/message.py - do not edit *)\n"
             "From Coq Require Import ZArith Bool.\nOpen Scope Z_scope.\n"
-            "(* true = Message.from_json raises InvalidMessageDefinition *)\n"
-            f"Definition guard_version (version type_hash : Z) : bool := {body}.\n")
+            "(* true = Message.from_json raises InvalidMessageDefinition; it is the only branch of from_json and sits\n"
+            "   between the class lookup and the decoding of the data segment *)\n"
+            f"Definition guard_version (version type_hash : Z) : bool := {guard}.\n")
